@@ -8,6 +8,7 @@ import (
 	"bytes"
 	"fmt"
 	"io"
+	"runtime"
 
 	"verifharness/conc"
 	"verifharness/vt"
@@ -22,6 +23,7 @@ import (
 	"github.com/tink-crypto/tink-go/v2/mac"
 	"github.com/tink-crypto/tink-go/v2/prf"
 	"github.com/tink-crypto/tink-go/v2/signature"
+	"github.com/tink-crypto/tink-go/v2/signprehash"
 	"github.com/tink-crypto/tink-go/v2/streamingaead"
 	"google.golang.org/protobuf/proto"
 )
@@ -37,6 +39,19 @@ type op struct {
 	// the alone inverse of a randomized operation (decrypt / verify) and its name
 	invName string
 	inv     func(out, msg []byte) ([]byte, error)
+	// extra fields of the call's events (the caller's JWT type header and payload, for the spec's own decoding)
+	meta func(in []byte) map[string]any
+}
+
+// adFor varies the SHAPE of the associated data with the message: nil, empty, or bytes depending on it.
+func adFor(msg []byte) []byte {
+	switch len(msg) % 3 {
+	case 0:
+		return nil
+	case 1:
+		return []byte{}
+	}
+	return append([]byte("c18 ad "), msg[len(msg)-1])
 }
 
 var ad = []byte("c18 associated data")
@@ -58,32 +73,52 @@ func encryptStream(p interface {
 	NewEncryptingWriter(io.Writer, []byte) (io.WriteCloser, error)
 }, msg []byte) ([]byte, error) {
 	var b bytes.Buffer
-	w, err := p.NewEncryptingWriter(&b, ad)
+	w, err := p.NewEncryptingWriter(&b, adFor(msg))
 	if err != nil {
 		return nil, err
 	}
-	// two writes: the writer's own state must not leak between concurrently open writers
-	h := len(msg) / 2
-	if _, err := w.Write(msg[:h]); err != nil {
-		return nil, err
-	}
-	if _, err := w.Write(msg[h:]); err != nil {
-		return nil, err
+	// several chunks with scheduling points in between (other writers / readers are alive meanwhile: the
+	// writer's own state must not leak between concurrently open streams), then Close, and - the usual
+	// `defer w.Close()` next to an explicit Close - for half of the streams Close AGAIN (a documented no-op)
+	for off := 0; off < len(msg); {
+		n := 1 + (len(msg)-off)/3
+		if _, err := w.Write(msg[off : off+n]); err != nil {
+			return nil, err
+		}
+		off += n
+		runtime.Gosched()
 	}
 	if err := w.Close(); err != nil {
 		return nil, err
+	}
+	if len(msg)%2 == 0 {
+		if err := w.Close(); err != nil {
+			return nil, err
+		}
 	}
 	return b.Bytes(), nil
 }
 
 func decryptStream(p interface {
 	NewDecryptingReader(io.Reader, []byte) (io.Reader, error)
-}, ct []byte) ([]byte, error) {
-	r, err := p.NewDecryptingReader(bytes.NewReader(ct), ad)
+}, ct, msg []byte) ([]byte, error) {
+	r, err := p.NewDecryptingReader(bytes.NewReader(ct), adFor(msg))
 	if err != nil {
 		return nil, err
 	}
-	return io.ReadAll(r)
+	var out []byte
+	buf := make([]byte, 7) // small reads with scheduling points: the reader stays alive across other streams' work
+	for {
+		n, err := r.Read(buf)
+		out = append(out, buf[:n]...)
+		if err == io.EOF {
+			return out, nil
+		}
+		if err != nil {
+			return nil, err
+		}
+		runtime.Gosched()
+	}
 }
 
 var (
@@ -91,16 +126,68 @@ var (
 )
 
 func init() {
-	v, err := jwt.NewValidator(&jwt.ValidatorOpts{AllowMissingExpiration: true})
+	v, err := jwt.NewValidator(&jwt.ValidatorOpts{AllowMissingExpiration: true, IgnoreTypeHeader: true, IgnoreAudiences: true, IgnoreIssuer: true})
 	must(err, "jwt validator")
 	jwtValidator = v
 }
 
-func rawJWT(msg []byte) *jwt.RawJWT {
-	sub := "s" + vt.Hex(msg)
-	r, err := jwt.NewRawJWT(&jwt.RawJWTOptions{Subject: &sub, WithoutExpiration: true})
+// jwtShape derives the SHAPE of a raw JWT from the call's input: type header absent / three different values,
+// different sets of claims. The meta fields carry what the caller asked for (type header, JSON payload) so that
+// the specification can decode the returned token itself.
+func jwtShape(in []byte) (*jwt.RawJWT, map[string]any) {
+	sum := 0
+	for _, b := range in {
+		sum += int(b)
+	}
+	sub := "s" + vt.Hex(in)
+	o := &jwt.RawJWTOptions{Subject: &sub, WithoutExpiration: true}
+	hasTyp, typ := true, ""
+	switch sum % 4 {
+	case 0:
+		hasTyp = false
+	case 1:
+		typ = "JWT"
+	case 2:
+		typ = "at+jwt"
+	default:
+		typ = "c18-" + vt.Hex(in[len(in)-1:])
+	}
+	if hasTyp {
+		o.TypeHeader = &typ
+	}
+	if sum%3 == 0 {
+		aud := "aud-" + vt.Hex(in[:1])
+		o.Audience = &aud
+	}
+	if sum%5 < 2 {
+		o.CustomClaims = map[string]any{"n": float64(sum % 1000), "flag": sum%2 == 0}
+	}
+	r, err := jwt.NewRawJWT(o)
 	must(err, "raw jwt")
-	return r
+	pl, err := r.JSONPayload()
+	must(err, "raw jwt payload")
+	return r, map[string]any{"jwt": true, "hasTyp": hasTyp, "typ": typ, "payload": vt.Hex(pl)}
+}
+
+func rawJWT(msg []byte) *jwt.RawJWT { r, _ := jwtShape(msg); return r }
+
+func jwtMeta(in []byte) map[string]any { _, m := jwtShape(in); return m }
+
+// decoded renders what a verification returned: the type header and the JSON payload.
+func decoded(v *jwt.VerifiedJWT) ([]byte, error) {
+	pl, err := v.JSONPayload()
+	if err != nil {
+		return nil, err
+	}
+	typ := "<absent>"
+	if v.HasTypeHeader() {
+		t, err := v.TypeHeader()
+		if err != nil {
+			return nil, err
+		}
+		typ = t
+	}
+	return append([]byte("typ="+typ+" payload="), pl...), nil
 }
 
 // opsFor builds the operations of the target's class on primitives obtained ONCE from h (shared by
@@ -114,27 +201,27 @@ func opsFor(t *conc.Target, h *keyset.Handle) []*op {
 	case "aead":
 		p, err := aead.New(h)
 		must(err, t.Name)
-		add(&op{name: "Encrypt", rand: true, call: func(in, _ []byte) ([]byte, error) { return p.Encrypt(in, ad) },
-			invName: "Decrypt", inv: func(out, _ []byte) ([]byte, error) { return p.Decrypt(out, ad) }})
-		add(&op{name: "Decrypt", from: "Encrypt", call: func(in, _ []byte) ([]byte, error) { return p.Decrypt(in, ad) }})
-		add(&op{name: "aead.New+Decrypt", from: "Encrypt", call: func(in, _ []byte) ([]byte, error) {
+		add(&op{name: "Encrypt", rand: true, call: func(in, _ []byte) ([]byte, error) { return p.Encrypt(in, adFor(in)) },
+			invName: "Decrypt", inv: func(out, msg []byte) ([]byte, error) { return p.Decrypt(out, adFor(msg)) }})
+		add(&op{name: "Decrypt", from: "Encrypt", call: func(in, msg []byte) ([]byte, error) { return p.Decrypt(in, adFor(msg)) }})
+		add(&op{name: "aead.New+Decrypt", from: "Encrypt", call: func(in, msg []byte) ([]byte, error) {
 			q, err := aead.New(h)
 			if err != nil {
 				return nil, err
 			}
-			return q.Decrypt(in, ad)
+			return q.Decrypt(in, adFor(msg))
 		}})
 	case "daead":
 		p, err := daead.New(h)
 		must(err, t.Name)
-		add(&op{name: "EncryptDeterministically", call: func(in, _ []byte) ([]byte, error) { return p.EncryptDeterministically(in, ad) }})
-		add(&op{name: "DecryptDeterministically", from: "EncryptDeterministically", call: func(in, _ []byte) ([]byte, error) { return p.DecryptDeterministically(in, ad) }})
+		add(&op{name: "EncryptDeterministically", call: func(in, _ []byte) ([]byte, error) { return p.EncryptDeterministically(in, adFor(in)) }})
+		add(&op{name: "DecryptDeterministically", from: "EncryptDeterministically", call: func(in, msg []byte) ([]byte, error) { return p.DecryptDeterministically(in, adFor(msg)) }})
 		add(&op{name: "daead.New+EncryptDeterministically", call: func(in, _ []byte) ([]byte, error) {
 			q, err := daead.New(h)
 			if err != nil {
 				return nil, err
 			}
-			return q.EncryptDeterministically(in, ad)
+			return q.EncryptDeterministically(in, adFor(in))
 		}})
 	case "mac":
 		p, err := mac.New(h)
@@ -186,6 +273,24 @@ func opsFor(t *conc.Target, h *keyset.Handle) []*op {
 			err = ph.WriteWithNoSecrets(keyset.NewBinaryWriter(&b))
 			return b.Bytes(), err
 		}})
+	case "prehash":
+		pub, err := h.Public()
+		must(err, t.Name)
+		ph, err := signprehash.NewPrehash(pub)
+		must(err, t.Name)
+		s, err := signprehash.NewPrehashSigner(h)
+		must(err, t.Name)
+		v, err := signature.NewVerifier(pub)
+		must(err, t.Name)
+		add(&op{name: "ComputePrehash", call: func(in, _ []byte) ([]byte, error) { return ph.ComputePrehash(in) }})
+		add(&op{name: "ComputePrehash+SignPrehash", rand: true, call: func(in, _ []byte) ([]byte, error) {
+			d, err := ph.ComputePrehash(in)
+			if err != nil {
+				return nil, err
+			}
+			return s.SignPrehash(d)
+		}, invName: "Verify", inv: func(out, msg []byte) ([]byte, error) { return okBytes(v.Verify(out, msg)) }})
+		add(&op{name: "Verify", from: "ComputePrehash+SignPrehash", call: func(in, msg []byte) ([]byte, error) { return okBytes(v.Verify(in, msg)) }})
 	case "hybrid":
 		pub, err := h.Public()
 		must(err, t.Name)
@@ -193,15 +298,15 @@ func opsFor(t *conc.Target, h *keyset.Handle) []*op {
 		must(err, t.Name)
 		d, err := hybrid.NewHybridDecrypt(h)
 		must(err, t.Name)
-		add(&op{name: "Encrypt", rand: true, call: func(in, _ []byte) ([]byte, error) { return e.Encrypt(in, ad) },
-			invName: "Decrypt", inv: func(out, _ []byte) ([]byte, error) { return d.Decrypt(out, ad) }})
-		add(&op{name: "Decrypt", from: "Encrypt", call: func(in, _ []byte) ([]byte, error) { return d.Decrypt(in, ad) }})
-		add(&op{name: "hybrid.NewHybridDecrypt+Decrypt", from: "Encrypt", call: func(in, _ []byte) ([]byte, error) {
+		add(&op{name: "Encrypt", rand: true, call: func(in, _ []byte) ([]byte, error) { return e.Encrypt(in, adFor(in)) },
+			invName: "Decrypt", inv: func(out, msg []byte) ([]byte, error) { return d.Decrypt(out, adFor(msg)) }})
+		add(&op{name: "Decrypt", from: "Encrypt", call: func(in, msg []byte) ([]byte, error) { return d.Decrypt(in, adFor(msg)) }})
+		add(&op{name: "hybrid.NewHybridDecrypt+Decrypt", from: "Encrypt", call: func(in, msg []byte) ([]byte, error) {
 			q, err := hybrid.NewHybridDecrypt(h)
 			if err != nil {
 				return nil, err
 			}
-			return q.Decrypt(in, ad)
+			return q.Decrypt(in, adFor(msg))
 		}})
 		add(&op{name: "Handle.Public", call: func(_, _ []byte) ([]byte, error) {
 			ph, err := h.Public()
@@ -216,14 +321,14 @@ func opsFor(t *conc.Target, h *keyset.Handle) []*op {
 		p, err := streamingaead.New(h)
 		must(err, t.Name)
 		add(&op{name: "NewEncryptingWriter", rand: true, call: func(in, _ []byte) ([]byte, error) { return encryptStream(p, in) },
-			invName: "NewDecryptingReader", inv: func(out, _ []byte) ([]byte, error) { return decryptStream(p, out) }})
-		add(&op{name: "NewDecryptingReader", from: "NewEncryptingWriter", call: func(in, _ []byte) ([]byte, error) { return decryptStream(p, in) }})
-		add(&op{name: "streamingaead.New+NewDecryptingReader", from: "NewEncryptingWriter", call: func(in, _ []byte) ([]byte, error) {
+			invName: "NewDecryptingReader", inv: func(out, msg []byte) ([]byte, error) { return decryptStream(p, out, msg) }})
+		add(&op{name: "NewDecryptingReader", from: "NewEncryptingWriter", call: func(in, msg []byte) ([]byte, error) { return decryptStream(p, in, msg) }})
+		add(&op{name: "streamingaead.New+NewDecryptingReader", from: "NewEncryptingWriter", call: func(in, msg []byte) ([]byte, error) {
 			q, err := streamingaead.New(h)
 			if err != nil {
 				return nil, err
 			}
-			return decryptStream(q, in)
+			return decryptStream(q, in, msg)
 		}})
 	case "kderiv":
 		p, err := keyderivation.New(h)
@@ -249,7 +354,7 @@ func opsFor(t *conc.Target, h *keyset.Handle) []*op {
 	case "jwtmac":
 		p, err := jwt.NewMAC(h)
 		must(err, t.Name)
-		add(&op{name: "ComputeMACAndEncode", call: func(in, _ []byte) ([]byte, error) {
+		add(&op{name: "ComputeMACAndEncode", meta: jwtMeta, call: func(in, _ []byte) ([]byte, error) {
 			s, err := p.ComputeMACAndEncode(rawJWT(in))
 			return []byte(s), err
 		}})
@@ -258,7 +363,7 @@ func opsFor(t *conc.Target, h *keyset.Handle) []*op {
 			if err != nil {
 				return nil, err
 			}
-			return v.JSONPayload()
+			return decoded(v)
 		}})
 	case "jwtsig":
 		s, err := jwt.NewSigner(h)
@@ -272,9 +377,9 @@ func opsFor(t *conc.Target, h *keyset.Handle) []*op {
 			if err != nil {
 				return nil, err
 			}
-			return r.JSONPayload()
+			return decoded(r)
 		}
-		add(&op{name: "SignAndEncode", rand: true, call: func(in, _ []byte) ([]byte, error) {
+		add(&op{name: "SignAndEncode", rand: true, meta: jwtMeta, call: func(in, _ []byte) ([]byte, error) {
 			tok, err := s.SignAndEncode(rawJWT(in))
 			return []byte(tok), err
 		}, invName: "VerifyAndDecode", inv: func(out, _ []byte) ([]byte, error) { return okBytes2(verify(out)) }})
